@@ -256,19 +256,15 @@ func reconfListen() {
 		Upstreams: []config.UpstreamConfig{{Name: "u1", Servers: []config.UpstreamServerConfig{{Addr: "http://127.0.0.1:1"}}}},
 		Locations: []config.LocationConfig{{Name: "l1", Upstream: "u1"}},
 	}
-	var addrs []string
-	for i := 0; i < 5; i++ {
-		addrs = append(addrs, freeAddr())
-	}
 	mk := func(as []string) *config.PikeConfig {
 		c := base
+		c.Servers = nil
 		for _, a := range as {
 			c.Servers = append(c.Servers, config.ServerConfig{Addr: a, Cache: "c1", Locations: []string{"l1"}})
 		}
 		return &c
 	}
-	applyLikeMainUpdate(mk(addrs[:4]))
-	_ = server.Start()
+	var addrs []string
 	// poll (bounded) until the listeners show the configured picture: start-up and the 10 s graceful close run
 	// in goroutines of their own, and the machine may be busy
 	observe := func(want string, limit time.Duration) string {
@@ -284,7 +280,23 @@ func reconfListen() {
 			time.Sleep(200 * time.Millisecond)
 		}
 	}
-	before := observe("11110", 5*time.Second)
+	before := ""
+	// a probed free port can be taken by another process before the server listens on it: start over with
+	// other ports (what is examined is the update, not the start-up)
+	for attempt := 0; attempt < 4; attempt++ {
+		applyLikeMainUpdate(&config.PikeConfig{})
+		addrs = nil
+		for i := 0; i < 5; i++ {
+			addrs = append(addrs, freeAddr())
+		}
+		applyLikeMainUpdate(mk(addrs[:4]))
+		_ = server.Start()
+		before = observe("11110", 5*time.Second)
+		if before == "11110" {
+			break
+		}
+		stat("listen-start-retried")
+	}
 	final := []string{addrs[0], addrs[4]}
 	applyLikeMainUpdate(mk(final))
 	_ = server.Start()
